@@ -432,7 +432,7 @@ func TestRoundTrip(t *testing.T) {
 	evid.Rule(ruleText)
 	evid.Assume("net/url (standard library) is trusted to print and parse URLs; its reading of every generated URL is checked against the grammar's intent")
 	evid.Assume("on data channels a frame carries an RTP packet (ipchub parses the RTP fixed header in ReadPacket); frames on a channel that was never SETUP are outside the statement")
-	evid.Checks(20000, 400000)
+	evid.Checks(20000, 300000)
 	t.Run("request", func(t *testing.T) {
 		t.Parallel()
 		rapid.Check(t, propRequest)
